@@ -8,28 +8,29 @@ import (
 
 // Scenario is the replayable input of one end-to-end run.
 type Scenario struct {
-	Seed       uint64       `json:"seed"`
-	Mode       string       `json:"mode"` // exact: control operations never overlap a write; racy: they run concurrently
-	TLS        bool         `json:"tls"`  // rtsps + SRTP
-	Cap        int          `json:"cap"`  // Server.WriteQueueSize
-	MaxPkt     int          `json:"max_pkt,omitempty"`
-	Medias     [][]int      `json:"medias"` // payload types of every media
-	N          int          `json:"n"`
-	ArbSeq     bool         `json:"arb_seq,omitempty"`   // arbitrary sequence numbers (reliable transports only)
-	Pace       int          `json:"pace,omitempty"`      // yield 50µs every Pace writes
-	Relay      string       `json:"relay,omitempty"`     // "", "tcp", "udp": publisher → server session → stream
-	PubCap     int          `json:"pub_cap,omitempty"`   // relay: the publishing client\'s WriteQueueSize
-	PubRaw     bool         `json:"pub_raw,omitempty"`   // relay over TCP: hand-written publisher (explicit interleaved channels)
-	PubChans   []int        `json:"pub_chans,omitempty"` // … first interleaved id requested per SETUP (-1: none)
-	PubOrder   []int        `json:"pub_order,omitempty"` // … SETUP order of the medias
-	PubLoss    int          `json:"pub_loss,omitempty"`  // relay over UDP: faults on the publisher → server hop, per mille
-	PubDup     int          `json:"pub_dup,omitempty"`
-	PubReorder int          `json:"pub_reorder,omitempty"`
-	Readers    []ReaderSpec `json:"readers"`
-	NoModel    bool         `json:"no_model,omitempty"`   // property oracle only (very long runs)
-	SizeSweep  bool         `json:"size_sweep,omitempty"` // write number i has i+1 payload bytes
-	SRTPWrap   bool         `json:"srtp_wrap,omitempty"`  // TLS: let sequence numbers wrap (see srtpMissedWrap)
-	SeqStart   int          `json:"seq_start,omitempty"`  // first sequence number of every format (0: seeded)
+	Seed         uint64       `json:"seed"`
+	Mode         string       `json:"mode"` // exact: control operations never overlap a write; racy: they run concurrently
+	TLS          bool         `json:"tls"`  // rtsps + SRTP
+	Cap          int          `json:"cap"`  // Server.WriteQueueSize
+	MaxPkt       int          `json:"max_pkt,omitempty"`
+	Medias       [][]int      `json:"medias"` // payload types of every media
+	N            int          `json:"n"`
+	ArbSeq       bool         `json:"arb_seq,omitempty"`   // arbitrary sequence numbers (reliable transports only)
+	Pace         int          `json:"pace,omitempty"`      // yield 50µs every Pace writes
+	Relay        string       `json:"relay,omitempty"`     // "", "tcp", "udp": publisher → server session → stream
+	PubCap       int          `json:"pub_cap,omitempty"`   // relay: the publishing client\'s WriteQueueSize
+	PubRaw       bool         `json:"pub_raw,omitempty"`   // relay over TCP: hand-written publisher (explicit interleaved channels)
+	PubChans     []int        `json:"pub_chans,omitempty"` // … first interleaved id requested per SETUP (-1: none)
+	PubOrder     []int        `json:"pub_order,omitempty"` // … SETUP order of the medias
+	PubLoss      int          `json:"pub_loss,omitempty"`  // relay over UDP: faults on the publisher → server hop, per mille
+	PubDup       int          `json:"pub_dup,omitempty"`
+	PubReorder   int          `json:"pub_reorder,omitempty"`
+	Readers      []ReaderSpec `json:"readers"`
+	NoModel      bool         `json:"no_model,omitempty"`      // property oracle only (very long runs)
+	SizeSweep    bool         `json:"size_sweep,omitempty"`    // write number i has i+1 payload bytes
+	SRTPWrap     bool         `json:"srtp_wrap,omitempty"`     // TLS: let sequence numbers wrap (see srtpMissedWrap)
+	SeqStart     int          `json:"seq_start,omitempty"`     // first sequence number of every format (0: seeded)
+	ExpectDesync bool         `json:"expect_desync,omitempty"` // reproduces the known finding c01-srtp-roc-desync
 }
 
 type ReaderSpec struct {
@@ -47,7 +48,7 @@ type ReaderSpec struct {
 // Step is one scheduled operation: before write number At.
 type Step struct {
 	At int    `json:"at"`
-	Op string `json:"op"` // setup | play | pause | leave | gate | ungate
+	Op string `json:"op"` // setup | play | replay (PLAY while playing) | pause | leave | gate | ungate
 }
 
 // pktMeta is one packet the writer will write.
